@@ -6,10 +6,21 @@
    an error - no panic outcome, no fuel exhaustion (termination is a theorem: each value consumes input).
    PARTIAL: real stack depth, wall time and allocation are runtime (the harness runs every one of the
    ~70 entry points found by reflection on a malformed stream with recover and a time bound);
-   encoding/gob and the real fastjson are trusted for their own totality; the gob decoders and the
-   follow-up operations on decoded values are evaluated natively only. *)
+   encoding/gob and the real fastjson are trusted for their own totality; the follow-up operations on
+   decoded values are evaluated natively only.
+   GOB SIDE (Model/GobTotal.v, Proofs/GobWireP.v): the gob / binary decoding entry points are modelled over the
+   abstract wire of Model/Gob.v - a byte string enters the model as what encoding/gob makes of it (item list,
+   opaque value, property map, key/value list, byte string, number, or raw bytes), every nested byte string
+   again so; encoding/gob itself is OUTSIDE the model.  C04_gob_total: on EVERY wire (every map, every byte
+   string in it, any depth) each entry point returns a value or an error - no panic outcome, no fuel
+   exhaustion - for any tables that pass the decidable condition gob_dec_safe (no read statement calls
+   GobDecode through a nil *Endpoints), instantiated on the tables regenerated on this run.
+   C04_gob_fuel_sufficient is the fuel lemma; C04_gob_nil_receiver_refuted shows the condition is not
+   vacuous. *)
 From AP.Model Require Import Prelude Bytes Vocab Json Text JsonDec JsonCodec TextUnm.
-From AP.Proofs Require Import ParseTotalP C04P.
+From AP.Model Require Import Layout Dispatch GobTables Gob GobInst GobTotal.
+From AP.Proofs Require Import ParseTotalP C04P GobWireP.
+From AP.Gen Require GobR.
 
 Theorem C04_parser_total : forall s, (exists v, fj_parse s = Ok v) \/ fj_parse s = Err.
 Proof. exact fj_parse_total. Qed.
@@ -36,3 +47,54 @@ Example C04_example :
   fj_parse (B "{""a"":[1,{""b"":""é""}],") = Err /\ (exists v, fj_parse (B " [ 1 , {""b"" : null } ] ") = Ok v) /\
   dec (B "{""type"":7,""id"":{}}") = Some (Ok INil).
 Proof. split; [vm_compute; reflexivity|]. split; [eexists; vm_compute; reflexivity|vm_compute; reflexivity]. Qed.
+
+(* ---------------------------------------------------------------- the gob decoders *)
+(* the table condition, on the tables regenerated from unmap<T>Properties on this run *)
+Theorem C04_gob_tables_safe : gob_dec_safe genv = true /\ gob_dec_unsafe_entries genv = [].
+Proof. vm_compute. split; reflexivity. Qed.
+
+(* for EVERY wire - every map and every byte string in it, of any depth - every gob / binary decoding entry
+   point returns a value or an error: never a panic outcome, never fuel exhaustion; generic in the tables *)
+Theorem C04_gob_total_generic :
+  forall E : gob_env, gob_dec_safe E = true -> forall (ep : gob_ep) (w : wire), returns (run_gob E ep w).
+Proof. exact run_gob_total. Qed.
+
+Theorem C04_gob_total : forall (ep : gob_ep) (w : wire), returns (run_gob genv ep w).
+Proof. exact (run_gob_total genv (proj1 C04_gob_tables_safe)). Qed.
+
+(* fuel sufficiency: with any fuel above the depth of the wire gobDecodeItem returns, and the result does
+   not depend on the fuel; so the recursion depth of the decoder is bounded by the nesting depth of its input *)
+Theorem C04_gob_fuel_sufficient :
+  forall E : gob_env, gob_dec_safe E = true ->
+  forall (n : nat) (w : wire), (wire_depth w < n)%nat -> returns (dec_fuel E n w) /\ dec_fuel E n w = gdec E w.
+Proof. exact dec_fuel_sufficient. Qed.
+
+(* the condition is not vacuous: were unmapActorProperties to call GobDecode through the (nil) Endpoints
+   field, a property map with an "endpoints" key would be a panic *)
+Definition genv_nil_receiver : gob_env :=
+  mk_gob_env (ge_wfuncs genv)
+    (edit_r (B "unmapActorProperties")
+       (fun e => match e with GR f k c p => if bytes_eqb k (B "endpoints") then [GR f k (B "*Endpoints.GobDecode") p] else [e] | _ => [e] end)
+       (ge_rfuncs genv))
+    (ge_enc_methods genv) (ge_dec_methods genv) (ge_sw_enc genv) (ge_sw_enc_default genv) (ge_sw_dec genv) (ge_sw_dec_default genv)
+    (ge_sw_typer genv) (ge_sw_typer_default genv) (ge_layout genv) (ge_layout_endpoints genv)
+    (ge_leaf_w genv) (ge_leaf_r genv) (ge_leaf_layouts genv) (ge_sniff genv) (ge_ptr_iri genv) (ge_endpoints_codec genv).
+
+Theorem C04_gob_nil_receiver_refuted :
+  gob_dec_safe genv_nil_receiver = false /\
+  exists w, run_gob genv_nil_receiver GEItem w = Panic NilDeref /\ returns (run_gob genv GEItem w).
+Proof.
+  split; [vm_compute; reflexivity|].
+  exists (WMap [(B "type", WRaw (B "Person")); (B "endpoints", WMap [(B "sharedInbox", WRaw (B "https://example.com/i"))])]).
+  split; [vm_compute; reflexivity|exact (C04_gob_total _ _)].
+Qed.
+
+(* malformed maps: a value or an error, at every entry point *)
+Example C04_gob_example :
+  let bad := WMap [(B "type", WRaw (B "Create")); (B "published", WRaw (hx "ff")); (B "object", WList [WMap [(B "to", WInt 3)]])] in
+  run_gob genv GEItem bad = Err /\
+  oclass_of (run_gob genv GEItem (WMap [(B "type", WInt 7); (B "id", WList []); (B "object", WList [WMap [(B "to", WInt 3)]; WRaw (hx "00")])])) = OcValue /\
+  run_gob genv (GEKind KActor) (WList [bad]) = Err /\ oclass_of (run_gob genv GEItems (WList [bad; bad])) = OcError /\
+  oclass_of (run_gob genv GEItem (WList [bad; bad])) = OcValue /\
+  forallb (fun ep => returnsb (run_gob genv ep bad)) all_gob_eps = true.
+Proof. vm_compute. repeat split; reflexivity. Qed.
